@@ -109,6 +109,9 @@ def inline_unknown(records, strip):
             continue
         if p in known:
             continue
+        ret = r['locals'][0] if r.get('locals') else ''
+        if isinstance(ret, str) and ret.startswith('impl ') and 'future::Future<' in ret:
+            continue        # constructor of an async fn: the call stays a call (the checks follow async calls by name)
         if p.split('::')[0].lstrip('<') not in ('lorawan', 'lorawan_device', 'lora_phy', 'lora_modulation'):
             continue
         unknown[p] = r
@@ -160,14 +163,24 @@ def inline_unknown(records, strip):
         if p in unknown:
             continue
         expand(r, 0, frozenset())
-    # helpers that now live inside their callers are not separate program points any more (their closures stay)
-    called = set()
-    for r in records:
-        for b in r['blocks']:
-            if b['t']['k'] == 'call':
-                cp = _callee_path(b['t'])
-                if cp:
-                    called.add(strip(cp))
-    drop = {p for p in unknown if p in inlined_everywhere and p not in called and any(p in v for v in log.values())}
+    # helpers that now live inside their callers are not separate program points any more (their closures stay); a helper that is
+    # only called from another dropped helper goes with it
+    drop = set()
+    while True:
+        called = set()
+        for r in records:
+            if strip(r['path']) in drop:
+                continue
+            for b in r['blocks']:
+                if b['t']['k'] == 'call':
+                    cp = _callee_path(b['t'])
+                    if cp:
+                        called.add(strip(cp))
+        more = {p for p in unknown if p in inlined_everywhere and p not in called and p not in drop
+                and (any(p in v for v in log.values()) or not any(p == strip(r['path']) for r in records if strip(r['path']) not in unknown))}
+        more = {p for p in more if any(p in v for v in log.values())}
+        if not more:
+            break
+        drop |= more
     out = [r for r in records if strip(r['path']) not in drop]
     return out, log
